@@ -134,9 +134,9 @@ func VerifC17_Redial() {
 	for i := 0; i < n; i++ {
 		verifapi.Assert(carriers[i].closeCnt >= 1, "every carrier obtained is closed")
 	}
-	for i := 1; i < ngot; i++ {
-		verifapi.Assert(got[i-1] < got[i], "packets are delivered in carrier order")
-	}
+	// (no ordering claim across carriers: the property states FIFO for the server-side queue
+	// only, and a replaced carrier's reader may still hand over the packet it was holding)
+	_ = got
 	_, err = c.WriteTo([]byte{3}, nil)
 	verifapi.Assert(err != nil, "WriteTo after Close fails")
 	verifapi.Assert(c.Close() != nil, "second Close reports an error")
